@@ -119,6 +119,23 @@ Proof.
     injection H as <-; intros; cbn [r_sess ph finish r_out]; auto.
 Qed.
 
+(* The learner that Succeeded hands out for a background run (of any
+   learner, in any state, for any message, size-class list and
+   configuration) answers Failed without a successor and Succeeded without a
+   further background learner. *)
+Lemma background_learner_is_final c s l d scs bgt l' :
+  ph (r_sess (succeeded c s l d scs bgt)) = PLearner l' ->
+  forall s' tout now d' scs' bgt',
+    (ph (r_sess (failed c s' l' tout now)) = PIdle /\ r_out (failed c s' l' tout now) = OutRetry 0 0 false) /\
+    (ph (r_sess (succeeded c s' l' d' scs' bgt')) = PIdle /\
+     r_out (succeeded c s' l' d' scs' bgt') = OutChoice 0 0 0 false).
+Proof.
+  unfold succeeded at 1. destruct l; cbn [r_sess ph finish]; intros H; try discriminate.
+  destruct (if (last scs 0%N =? largest)%N then index_of smaller 0 scs else None); [|discriminate].
+  destruct (calc_bg _ _ _ _ _ _); [|discriminate]. cbn [r_sess ph] in H. injection H as <-.
+  intros. cbn. auto.
+Qed.
+
 (* a failure on a smaller size class (foreground) is retried, with the
    action's original timeout and the expected duration of the largest class *)
 Lemma smaller_failure_is_retried c s sm smT lg lgT tout now :
